@@ -70,6 +70,7 @@ static char infos[MAXANOM][200];
 static size_t ninfo;
 
 static char logs[LOGLINES][LOGW];
+static char errlogs[32][LOGW];
 static unsigned long log_total, log_errors;
 
 static struct { char path[200]; char *content; size_t len; } files[MAXFILES];
@@ -727,7 +728,11 @@ void vf_syslog(int prio, const char *fmt, ...) {
 	/* the log sink is shared; threads hold the baton when they get here, but
 	 * the free-running fallbacks may not: keep it simple and tolerate races */
 	unsigned long k = log_total++;
-	if ((prio & 7) <= 3) log_errors++;
+	if ((prio & 7) <= 3) {
+		snprintf(errlogs[log_errors % 32], LOGW, "%llu.%06llu %s", (unsigned long long) (now_us / 1000000ULL),
+		         (unsigned long long) (now_us % 1000000ULL), line);
+		log_errors++;
+	}
 	snprintf(logs[k % LOGLINES], LOGW, "%llu.%06llu t%d <%d> %s",
 	         (unsigned long long) (now_us / 1000000ULL), (unsigned long long) (now_us % 1000000ULL),
 	         my_id, prio & 7, line);
@@ -744,6 +749,12 @@ const char *vf_log_line(size_t i) {
 	return logs[(first + i) % LOGLINES];
 }
 unsigned long vf_log_total(void) { return log_total; }
+size_t vf_errlog_count(void) { return log_errors < 32 ? (size_t) log_errors : 32; }
+const char *vf_errlog_line(size_t i) {
+	size_t n = vf_errlog_count();
+	if (i >= n) return "";
+	return errlogs[(log_errors - n + i) % 32];
+}
 unsigned long vf_log_errors(void) { return log_errors; }
 
 /* ---- virtual files ----------------------------------------------------------- */
